@@ -1,5 +1,5 @@
 PROPS = {
-    "C23": dict(engine="mthandle", race=False, level="exploration", design="C23",
+    "C23": dict(engine="mthandle", race=False, also=[dict(engine="mthandle", race=True)], level="exploration", design="C23",
                 technique="runtime monitor: crash observation in child processes + request-routing oracle over pending Conn.Invoke calls; "
                           "hook fast path cross-validated by the real read loop",
                 text="Every file of the 14 101-entry handle_message corpus, ~2 600 generated service-message cases (results, errors, gzip, pongs, bad msg / bad salt, acks, "
@@ -9,10 +9,13 @@ PROPS = {
                      "payload that names that invocation's msg id (exact first-delivery-wins model for generated payloads, id-occurrence incl. independent gunzip otherwise). "
                      "A sample (thorough: every eligible case, ~100 000) is also encrypted by the reference model and fed through the real read loop of mtproto.New/Run; both "
                      "paths must agree. Nested containers / gzip: moderate depths under the standard child limits, and the depth one message may legally carry "
-                     "(10 000 containers = 240 KB; thorough also 43 690 containers = 1 MiB and 8 000 gzip layers) in a child confined to a 2 GiB address space.",
+                     "(10 000 containers = 240 KB; thorough also 43 690 containers = 1 MiB and 8 000 gzip layers) in a child confined to a 2 GiB address space. "
+                     "Concurrent arm (also run as a -race build of the same engine, which then runs only this arm): ~3 100 rounds per run, each = fresh Conn, K=2..6 pending Invokes, "
+                     "1..3 gzip-packed rpc_results in sequence, then unique-body rpc_results for all remaining requests (+ duplicates, unrelated ids) handled at the same time "
+                     "(barrier-released goroutines on the hook path; back-to-back frames through the real read loop); exact-body oracle + race detector.",
                 note="Inputs are sampled beyond the complete corpus. Trusted: harness/refmodel encryption, harness MessageIDSource + fake transport, stdlib gzip for the "
                      "id-occurrence check. A never-delivered rpc_error shows up as a settle watchdog = inconclusive, not as a violation (a lost result is a violation: "
                      "Output.Decode is synchronous). The out-of-memory death of the deep-nesting case depends on the 2 GiB address-space limit of the child (the machine is shared; "
-                     "the unrestricted 1 MiB case needs 22.9 GB). A self-referencing gzip stream (gzip quine inside gzip_packed), which would recurse without bound, is not constructed.",
+                     "the unrestricted 1 MiB case needs 22.9 GB). Concurrent interleavings are sampled by the scheduler (GOMAXPROCS=4), not enumerated. A self-referencing gzip stream (gzip quine inside gzip_packed), which would recurse without bound, is not constructed.",
                 watchdog={"quick": 600, "thorough": 3 * 3600}),
 }
